@@ -67,19 +67,31 @@ func concrete(g geom.Geometry, prefix []byte) (string, string) {
 }
 
 type emitter struct {
-	w         interface{ WriteString(string) (int, error) }
-	unrep     int
-	fallback  int
-	nResp     int
-	nNeg      int
-	nGarbage  int
-	floatSeen map[uint64]bool
+	w        interface{ WriteString(string) (int, error) }
+	unrep    int
+	fallback int
+	nResp    int
+	nNeg     int
+	nGarbage int
+	// the exhaustive trailing stream: combinations parsed, texts it was put behind, texts still allowed
+	nStream      int
+	nStreamTexts int
+	streamBudget int
+	floatSeen    map[uint64]bool
+}
+
+// caseOpts: how much is derived from one generated geometry.
+type caseOpts struct {
+	nResp, nNeg int  // re-spellings and token mutations
+	trailing    bool // one trailing token (T), random members of the malformed trailing stream (TG)
+	stream      bool // the whole malformed trailing stream behind this text if it is short (TS)
 }
 
 func (e *emitter) line(fields ...string) { e.w.WriteString(strings.Join(fields, "\t") + "\n") }
 
 // geomCase emits the G line and its R/N/T lines.
-func (e *emitter) geomCase(id, class string, zero bool, g geom.Geometry, r *lib.Rng, nResp, nNeg int) {
+func (e *emitter) geomCase(id, class string, zero bool, g geom.Geometry, r *lib.Rng, o caseOpts) {
+	nResp, nNeg := o.nResp, o.nNeg
 	gd := lib.Dump(g)
 	text := g.AsText()
 	mt, ok := toModel(text)
@@ -169,38 +181,23 @@ func (e *emitter) geomCase(id, class string, zero bool, g geom.Geometry, r *lib.
 		e.nNeg++
 		e.line(fmt.Sprintf("%s.n%d", id, k), "N", kind, m, parseDump(s))
 	}
-	trail := text + []string{" x", ")", " POINT EMPTY", ",", " 1", " EMPTY", "("}[r.Intn(7)]
-	if m, ok := toModel(trail); ok {
-		e.line(id+".t", "T", m, parseDump(trail))
+	if o.trailing {
+		trail := text + []string{" x", ")", " POINT EMPTY", ",", " 1", " EMPTY", "("}[r.Intn(7)]
+		if m, ok := toModel(trail); ok {
+			e.line(id+".t", "T", m, parseDump(trail))
+		}
+		// members of the malformed trailing stream (trailing.go), fully recorded and compared with the
+		// model where the text is expressible in its alphabet
+		e.trailingRandom(id, text, r, 3)
 	}
-	// trailing garbage: lexically invalid numerals, stray punctuation, control characters, invalid
-	// UTF-8, very long tokens.  Mostly outside the model's alphabet: judged by SPEC (any non-blank
-	// trailing content is an error), compared with the model only where expressible.
-	nG := 3
-	if strings.HasPrefix(class, "zero") {
-		nG = len(garbage)
-	}
-	for k := 0; k < nG; k++ {
-		gi := r.Intn(len(garbage))
-		if nG == len(garbage) {
-			gi = k
-		}
-		sep := []string{" ", "", "\n", "\t "}[r.Intn(4)]
-		tail := garbage[gi].text
-		if r.Chance(1, 3) {
-			tail += []string{" LINESTRING(0 0,1 1)", " )", " 1 2", "\n"}[r.Intn(4)]
-		}
-		s := text + sep + tail
-		m, ok := toModel(s)
-		if !ok {
-			m = "UNREP"
-		}
-		var sh strings.Builder
-		hexChars(&sh, clip(s, 400))
-		e.nGarbage++
-		e.line(fmt.Sprintf("%s.g%d", id, k), "TG", garbage[gi].name, sh.String(), m, parseDump(s), parseValidated(s))
+	// the whole stream behind short texts (every zero value; generated texts while the budget lasts)
+	if o.stream && len(text) <= streamMaxText && (zero || strings.HasPrefix(class, "zero") || e.streamBudget > 0) {
+		e.streamBudget--
+		e.trailingExhaustive(id, text)
 	}
 }
+
+const streamMaxText = 120
 
 func clip(s string, n int) string {
 	if len(s) > n {
@@ -220,19 +217,6 @@ func parseValidated(s string) (out string) {
 		return "ERR"
 	}
 	return lib.Dump(g)
-}
-
-var garbage = []struct{ name, text string }{
-	{"num_08", "08"}, {"num_09", "09"}, {"num_0189", "0189"}, {"num_1e", "1e"}, {"num_1e+", "1e+"}, {"num_1E-", "1E-"},
-	{"num_0x", "0x"}, {"num_0b2", "0b2"}, {"num_0o8", "0o8"}, {"num_1__0", "1__0"}, {"num_1_", "1_"}, {"num_.e1", ".e1"},
-	{"num_0x1p", "0x1p"}, {"num_0x.p1", "0x.p1"}, {"num_1.5e", "1.5e"},
-	{"quote", "\""}, {"quote_open", "\"abc"}, {"squote", "'"}, {"backslash", "\\"}, {"backquote", "`"}, {"semicolon", ";"},
-	{"hash", "#"}, {"slash_comment", "// x"}, {"block_comment", "/* x */"}, {"dot", "."}, {"minus", "-"}, {"plus", "+"},
-	{"nul", "\x00"}, {"bell", "\x07"}, {"vtab", "\v"}, {"formfeed", "\f"}, {"esc", "\x1b"}, {"del", "\x7f"},
-	{"utf8_ff", "\xff"}, {"utf8_c3_28", "\xc3\x28"}, {"utf8_trunc", "\xe2\x82"}, {"utf8_overlong", "\xc0\xaf"},
-	{"bom", "\xef\xbb\xbf"}, {"nbsp", "\u00a0"}, {"unicode_letter", "\u00e9"}, {"unicode_digit", "\u0663"},
-	{"long_ident", strings.Repeat("x", 20000)}, {"long_digits", strings.Repeat("9", 5000)}, {"long_parens", strings.Repeat(")", 3000)},
-	{"long_bad_num", "0" + strings.Repeat("8", 3000)},
 }
 
 // deepColl builds a tree in which every inner node is a GeometryCollection with 2..4 children, the
@@ -340,10 +324,14 @@ func main() {
 	w, done := a.Output()
 	defer done()
 	root := lib.NewRng(a.Seed)
-	e := &emitter{w: w, floatSeen: map[uint64]bool{}}
+	e := &emitter{w: w, floatSeen: map[uint64]bool{}, streamBudget: 100}
+	if a.Tier == "thorough" {
+		e.streamBudget = 4000
+	}
 	var st lib.GenStats
 	classes := map[string]int{}
 	nResp, nNeg := 8, 5
+	full := caseOpts{nResp: nResp, nNeg: nNeg, trailing: true, stream: true}
 
 	// zero values of every Go type
 	zr := root.Fork()
@@ -363,7 +351,22 @@ func main() {
 	}
 	for i, z := range zeros {
 		classes["zero"]++
-		e.geomCase(fmt.Sprintf("z%d", i), "zero:"+z.name, z.zero, z.g, zr, nResp, nNeg)
+		e.geomCase(fmt.Sprintf("z%d", i), "zero:"+z.name, z.zero, z.g, zr, full)
+	}
+
+	// systematic nested-collection shapes (shapes.go): the document itself, for every 4th a
+	// re-spelling, for every 40th the malformed trailing stream
+	sr := root.Fork()
+	for i, sc := range shapeCases(a.Tier == "thorough", &st) {
+		classes[sc.class]++
+		o := caseOpts{}
+		if i%4 == 0 {
+			o.nResp = 1
+		}
+		if i%40 == 0 {
+			o.stream = true
+		}
+		e.geomCase(fmt.Sprintf("s%d", i), sc.class, false, sc.node.Build(), sr, o)
 	}
 
 	for i := 0; i < a.N; i++ {
@@ -395,7 +398,7 @@ func main() {
 		}
 		classes[class]++
 		g := n.Build()
-		e.geomCase(strconv.Itoa(i), class, false, g, r, nResp, nNeg)
+		e.geomCase(strconv.Itoa(i), class, false, g, r, full)
 		// fresh draws from every float class through the number oracle (the ordinates of the case itself
 		// are checked by the print comparison: their spelling is read back to bits by ParseFloat)
 		for j := 0; j < 3; j++ {
@@ -409,10 +412,20 @@ func main() {
 		9007199254740993, 1e-7, 123456.7890123456} {
 		e.floatCase(fmt.Sprintf("fb%d", i), f)
 	}
+	nLexErr := 0
+	groups := map[string]int{}
+	for _, f := range frags {
+		if f.lexErr {
+			nLexErr++
+		}
+		groups[f.name[:strings.Index(f.name, ":")]]++
+	}
 	stats := map[string]interface{}{"classes": classes, "kinds": st.Kinds, "ctypes": st.CTs,
 		"float_classes": st.FloatCls, "float_class_names": lib.FloatClassNames,
 		"empty_nodes": st.EmptyNodes, "empty_members": st.EmptyKids, "depth_hist": st.Depth, "vertices": st.Verts,
-		"respellings": e.nResp, "negatives": e.nNeg, "trailing_garbage": e.nGarbage, "garbage_kinds": len(garbage), "unrepresentable_skipped": e.unrep,
+		"respellings": e.nResp, "negatives": e.nNeg, "trailing_recorded": e.nGarbage, "trailing_fragments": len(frags), "trailing_fragments_lexically_invalid": nLexErr,
+		"trailing_fragment_groups": groups, "trailing_variants_per_fragment": len(trailVariants),
+		"trailing_stream_texts": e.nStreamTexts, "trailing_stream_parses": e.nStream, "unrepresentable_skipped": e.unrep,
 		"number_respell_fallbacks": e.fallback, "floats_checked": len(e.floatSeen),
 		"respellings_per_text": nResp, "mutations_per_text": nNeg}
 	js, _ := json.Marshal(stats)
